@@ -49,12 +49,12 @@ REQUIRED_COUNTERS = [
     "ops_judged", "values_compared", "m_reg_invariant", "m_reg_digest", "step_budget_armed", "parse_export_roundtrips",
     "config_roundtrips", "rejections_agreed", "real_layouts", "fuse_layouts", "queries_judged",
 ]
-CASE_TIMEOUT_S = 300
-WATCHDOG_S = {"quick": 900, "thorough": 5400}
+CASE_TIMEOUT_S = 900
+WATCHDOG_S = {"quick": 1800, "thorough": 10800}
 MAX_JOBS = 16
 
 KNOWN_ALTWIDTH = "reversed-altwidth-length-class"
-STEP_LIMIT = 400_000  # JUMP events per call into the tree (largest legitimate call observed: see evidence note max_steps)
+STEP_LIMIT = 2_000_000  # JUMP events per call into the tree; the largest legitimate call observed needs < 100 000 (evidence: max_steps_in_one_call)
 
 _MON: dict = {"ctx": None, "tripped": None, "depth": 0, "installed": False, "op": None}
 
@@ -453,7 +453,6 @@ class Bench:
         self.lay = bitvec.layout_from_spec(self.spec, self.grouped, self.endian)  # SpecError -> caller
         self.real = self.make_real()
         self.overlapping = bool(self.lay.overlaps())
-        self.writable_tops = [r for r in self.lay.regs if r.well_formed()]
 
     # -- construction -----------------------------------------------------------------------
     def make_real(self):
@@ -477,7 +476,6 @@ class Bench:
         b.__dict__.update(self.__dict__)
         b.lay = bitvec.layout_from_spec(self.spec, self.grouped, self.endian)
         b.real = self.make_real()
-        b.writable_tops = [r for r in b.lay.regs if r.well_formed()]
         b.sdigest = structure_digest(b.real)
         b.reported = set()
         b.otp = {}
@@ -561,6 +559,14 @@ class Bench:
         if not ds:
             return
         lay = self.lay
+        if fallback_key and getattr(self, "truncated_store", None):
+            # load_yml_config refused a later entry, but did it store (truncated) the value the model refuses?
+            snap = lay.snapshot()
+            self.truncated_store()
+            self.truncated_store = None
+            if not self.diffs():
+                self.fail(fallback_key, {"op": op, "note": "the refused multi-entry load stored the non-fitting value truncated"})
+            lay.restore(snap)
         snap_idx = {}
         i = 0
         for ti, r in enumerate(lay.regs):
@@ -583,6 +589,18 @@ class Bench:
         if fatal:
             raise _Abort(fatal[0])
 
+    def wrote_whole(self, op: dict, r) -> bool:
+        """Did this operation write register ``r`` as a whole?"""
+        kind = op["op"]
+        if kind in ("reg_set", "reg_reset"):
+            try:
+                return model_reg(self, op["reg"]) is r
+            except bitvec.NotFound:
+                return False
+        if kind == "load_config":
+            return r.name in op["cfg"]
+        return True
+
     RESET_OPS = ("reg_reset", "reset_all")
     WHOLE_WRITES = ("reg_set", "reg_reset", "reset_all", "parse", "load_config", "parse_export_fresh", "config_fresh", "config_same")
 
@@ -597,15 +615,13 @@ class Bench:
         if r.is_group and subs:
             if kind in self.RESET_OPS and any(d["real"] == 0 and d["model"] == r.subs[d["sub"]].reset != 0 for d in subs):
                 return "group-reset-ignores-subregister-reset-values"
-            if r.alt_widths and kind in self.WHOLE_WRITES:
+            if r.alt_widths and kind in self.WHOLE_WRITES and self.wrote_whole(op, r):
                 first_upper = min(r.alt_widths) // r.sub_width
                 # the model has zeroed the sub-registers above the written width class, the tree kept what they held
                 if all(d["sub"] >= first_upper and d["model"] == (r.subs[d["sub"]].reset if kind in self.RESET_OPS else 0) for d in subs):
                     return "altwidth-narrow-write-keeps-upper-subregisters"
         if kind in self.RESET_OPS and any(shift_reset_field(lf) for lf in leaves):
             return "reset-value-ignores-config-processor-of-bitfield"
-        if fallback_key and was_target:
-            return fallback_key
         return f"state-mismatch:{kind}:{'target' if was_target else 'neighbour'}"
 
 
@@ -879,7 +895,10 @@ def gen_op(rng, b: Bench):
         return {"op": kind, "diff": rng.random() < 0.5}
     if kind == "load_config":
         cfg: dict = {}
+        bad = False  # a value the model refuses ends the configuration: what a refused load leaves behind is then unambiguous
         for _ in range(rng.randrange(1, 5)):
+            if bad:
+                break
             if rng.random() < 0.55:
                 p = pick_field(rng, b)
                 if p is None:
@@ -894,6 +913,9 @@ def gen_op(rng, b: Bench):
                     else:
                         v = gen_value(rng, f.config_width, fit=0.9)
                         fields[f.name] = form_value(rng, v)
+                        if v < 0 or (v >> f.shift) >> f.width:
+                            bad = True
+                            break
                 if not fields:
                     continue
                 cfg[leaf.name] = {"bitfields": fields} if rng.random() < 0.3 else fields
@@ -907,7 +929,8 @@ def gen_op(rng, b: Bench):
                 if t.hexstring and isinstance(x, str):
                     x = format(v, "x") if v >= 0 else x  # hex-string registers take bare hex digits
                 cfg[t.name] = {"value": x} if rng.random() < 0.25 else x
-        if rng.random() < 0.06:
+                bad = v < 0 or v >> t.width != 0
+        if not bad and rng.random() < 0.06:
             cfg["NO_SUCH_REGISTER"] = 1
         if not cfg:
             return None
@@ -1030,6 +1053,7 @@ def apply_op(b: Bench, op: dict) -> None:  # noqa: C901
     if kind == "load_config":
         cfg = op["cfg"]
         accept_key = None
+        b.truncated_store = None
         mo = ("ok", None)
         for name, val in cfg.items():  # entry by entry, to know which entry the model refuses
             mo = model_try(lambda: lay.load_config({name: val}))  # noqa: B023
@@ -1099,6 +1123,13 @@ def load_accept_key(b: Bench, name: str, val) -> str:
             try:
                 f.check(x, nop)
             except bitvec.Reject:
+                v = _as_int(x)
+                if v is not None:
+                    def store_truncated(f=f, v=v, nop=nop):
+                        stored = (v if nop else v >> f.shift) & f.mask
+                        f.reg.set((f.reg.get() & ~(f.mask << f.offset)) | (stored << f.offset))
+
+                    b.truncated_store = store_truncated
                 return classify_accept("bitfield", x, f.width, 0 if nop else f.shift)
         return "accepts-rejected-input:load_config"
     x = val["value"] if isinstance(val, dict) else val
@@ -1316,7 +1347,6 @@ def apply_query(b: Bench, op: dict) -> None:  # noqa: C901
         _expect(b, op, "length", ro[1] if ro[0] == "ok" else ro[0], lay.size())
         return
     if q == "otp_index":
-        leaves = [(r, x) for r, x in zip(lay.regs, real._registers)]
         exp = None
         for r in lay.regs:
             for cand in [r] + r.subs:
@@ -1326,7 +1356,6 @@ def apply_query(b: Bench, op: dict) -> None:  # noqa: C901
         _expect(b, op, "found", ro[0] == "ok", exp is not None)
         if exp is not None:
             _expect(b, op, "identity", _ident(ro[1]), _ident(exp))
-        del leaves
         return
     raise core.Inconclusive(f"unknown query {q}")
 
@@ -1381,7 +1410,7 @@ def run_ops(ctx, b: Bench, ops, sig, sample=None) -> int:
     done = 0
     try:
         b.check_structure()
-        b.judge_state({"op": "load"}, b.lay.snapshot(), set())
+        b.judge_state({"op": "load"}, b.lay.snapshot(), set(range(len(b.lay.regs))))
         for op in ops:
             if op is None:
                 continue
@@ -1417,10 +1446,6 @@ def run_random(ctx, desc: dict, sig) -> None:
     if n and last and ctx._samples < ctx.MAX_SAMPLES:
         ctx.sample({"case": ctx.case_index, "sig": sig, "operations": n, "last_operation": last[0]})
     ctx.count("sequences")
-
-
-def feature_sig(b_or_lay, base: list) -> list:
-    return base
 
 
 # ==================================================================================================
@@ -1610,7 +1635,7 @@ def selftest(ctx):
         raise core.Inconclusive(f"step counter implausible: {_Budget.max_seen} jumps for a 64-iteration loop")
     tripped = False
     try:
-        with budget("selftest: 2**4000000", 1000):
+        with budget("selftest: 10000-byte value", 1000):
             misc.get_bytes_cnt_of_int(1 << 80000, align_to_2n=False)
     except core.StepBudgetExceeded:
         tripped = True
@@ -1627,10 +1652,14 @@ def cases(tier, seed):
     for name in DIRECTED:
         yield {"kind": "directed", "name": name}
     thorough = tier == "thorough"
-    slots = 96 if thorough else 48
-    for j in range(slots):
-        yield {"kind": "real", "slot": j, "of": slots, "seqs": 40 if thorough else 1}
-    n_syn, per = (1600, 20) if thorough else (80, 14)
+    # real layouts: slot j drives the layouts j, j + slots, ... of the (sorted) database enumeration; small cases so that the
+    # wall-clock watchdog of a case is never near, even on a loaded machine
+    slots = 128 if thorough else 48
+    for chunk in range(8 if thorough else 1):
+        for j in range(slots):
+            for endian in ("little", "big"):
+                yield {"kind": "real", "slot": j, "of": slots, "endian": endian, "chunk": chunk, "seqs": 5 if thorough else 1}
+    n_syn, per = (1600, 20) if thorough else (96, 14)
     for k in range(n_syn):
         yield {"kind": "synthetic", "k": k, "seqs": per}
 
@@ -1638,6 +1667,9 @@ def cases(tier, seed):
 def run_case(case, ctx):
     _MON["ctx"] = ctx
     _MON["tripped"] = None
+    _MON["depth"] = 0  # a wall-clock case timeout may have interrupted a hook of the previous case anywhere
+    _MON["op"] = None
+    _Budget.armed = False
     rng = ctx.rng
     kind = case["kind"]
     if kind == "repo-tests":
@@ -1647,11 +1679,12 @@ def run_case(case, ctx):
     elif kind == "real":
         Ls = real_layouts()
         mine = [L for i, L in enumerate(Ls) if i % case["of"] == case["slot"]]
+        endian = case["endian"]
         for L in mine:
-            ctx.count("fuse_layouts" if L["fuse"] else "real_layouts")
-            for endian in ("little", "big"):
-                for _ in range(case["seqs"]):
-                    run_random(ctx, dict(L, kind="real", endian=endian), ["real", L["tag"], endian, "FuseRegisters" if L["fuse"] else "Registers"])
+            if case["chunk"] == 0 and endian == "little":
+                ctx.count("fuse_layouts" if L["fuse"] else "real_layouts")
+            for _ in range(case["seqs"]):
+                run_random(ctx, dict(L, kind="real", endian=endian), ["real", L["tag"], endian, "FuseRegisters" if L["fuse"] else "Registers"])
     elif kind == "synthetic":
         for _ in range(case["seqs"]):
             fuse = rng.random() < 0.25
@@ -1662,6 +1695,21 @@ def run_case(case, ctx):
     else:
         raise core.Inconclusive(f"unknown case kind {kind}")
     ctx.note("max_steps_in_one_call", _Budget.max_seen - _Budget.max_seen % 1000)
+
+
+def extra_coverage(events, counters):
+    files, mechs, synth_feats = set(), {}, set()
+    for ev in events:
+        if ev.get("t") == "ok" and "sig" in ev:
+            sig = json.loads(ev["sig"])
+            if sig and sig[0] == "real":
+                files.add(sig[1])
+            elif sig and sig[0] == "synthetic":
+                synth_feats.update(sig[1])
+        elif ev.get("t") == "viol":
+            mechs[ev["mech"]] = mechs.get(ev["mech"], 0) + 1
+    return {"real_spec_files_driven": len(files), "synthetic_features_seen": sorted(synth_feats), "mechanisms_observed": mechs,
+            "hooks_reached": {k: counters.get(k, 0) for k in ("m_reg_invariant", "m_reg_digest", "step_budget_armed")}}
 
 
 def escape_mechanism(case, exc):
